@@ -831,7 +831,7 @@ package parse
 //@   nosafety
 //@   requires t != itemBool
 //@   note the precondition t != itemBool is not checked at the call sites for C13: (*tree).expect passes its `expected` argument, which is a constant other than itemBool at all 54 calls of expect (inspection), and fmt verbs format items, not item types
-//@   modifies *
+//@   pure
 
 // C13: the escape table is the inverse of the unescape table; filling it by
 // ranging over the latter is deterministic because no two sequences unescape to
